@@ -33,13 +33,13 @@ def run_check(tier, seed):
         return finish(ev, PROP, findings, broken)
     scale = 1 if tier == 'quick' else 8
     if broken: scale *= 4
-    n = 200 * scale
+    n = 140 * scale
     # random chains and op sequences, 50% of them on a dirty log that is not empty at the start (random / all / alternating pages);
     # then the deterministic family for long-lived logs: one writable segment of 3-5 pages, sub-writers written out of
     # order (trailer and header before the payload), stores of several pages through write / write_vectored /
     # write_from(_at) / write_all_from, initial log = exactly the end pages of each upcoming multi-page store (or none/all/alternating/random)
     cases = T.gen_vcases(rng, n // 2, writer_bias=True, dirty_init=True) + T.gen_vcases(rng, n - n // 2, dirty_init=True) \
-        + [T.gen_dirty_case(rng) for _ in range(100 * scale)] + [T.gen_short_case(rng) for _ in range(100 * scale)]
+        + [T.gen_dirty_case(rng) for _ in range(100 * scale)] + [T.gen_short_case(rng) for _ in range(100 * scale)] + T.gen_enum_vcases(rng, writer_only=True)
     txt = [T.case_text_v(c) for c in cases]
     outs, err = T.run_harness(bindir, 'virtio', txt, 'c17')
     evals = 0; shapes = set(); samples = []
